@@ -79,6 +79,8 @@ class ProtoExporter:
 
         # ExternalModule-id to Proto-ExternalModule dict
         self.ext_modules: Dict[int, vckt.ExternalModule] = dict()
+        # Qualified (domain, name) to ExternalModule dict
+        self.ext_modules_by_name: Dict[tuple, ExternalModule] = dict()
 
         # Default `domain` AKA package-name is the empty string
         self.pkg = vckt.Package(domain=domain or "")
@@ -156,6 +158,14 @@ class ProtoExporter:
         """Export an `ExternalModule`"""
         if id(emod) in self.ext_modules:  # Already done
             return self.ext_modules[id(emod)]
+
+        # Two different `ExternalModule`s under one qualified name cannot both be declared.
+        # Like for same-named `Module`s, fail rather than export a package with a doubly defined name.
+        qname = (emod.domain or "", emod.name)
+        if qname in self.ext_modules_by_name:
+            msg = f"Cannot serialize ExternalModule {emod} due to conflicting name with {self.ext_modules_by_name[qname]}."
+            raise RuntimeError(msg)
+        self.ext_modules_by_name[qname] = emod
 
         # ...
         pmod = export_external_module(emod)
